@@ -2,7 +2,7 @@
    Property theorems only; proofs are in Proofs1-5.v. *)
 From Coq Require Import List NArith Bool.
 From TV Require Import Lib.Obs Lib.C21_Utf8 Lib.C21_Pct C31.Model C31.Spec C31.Run
-     C31.Proofs1 C31.Proofs2 C31.Proofs3 C31.Proofs4 C31.Proofs5 C31.Proofs6 C31.Proofs7.
+     C31.Proofs1 C31.Proofs2 C31.Proofs3 C31.Proofs4 C31.Proofs5 C31.Proofs6 C31.Proofs7 C31.Proofs8.
 Import ListNotations.
 Local Open Scope N_scope.
 
@@ -199,3 +199,34 @@ Theorem C31_path_matcher_semantics_both_code_paths :
     exists caps, pm_parse p path caps.
 Proof. exact path_matcher_semantics. Qed.
 Print Assumptions C31_path_matcher_semantics_both_code_paths.
+
+(* Applications built by a SEQUENCE of add_handlers calls (a_hosts, in call order;
+   repeated and overlapping host patterns are separate groups at their own
+   positions): the request is served by the first group whose host pattern matches
+   the host name and which contains a matching rule, and by that group's first
+   matching rule ... *)
+Theorem C31_host_groups_are_tried_in_call_order :
+  forall a rq g1 r rs g2 l1 anc m h l2,
+    valid_text (rq_path rq) ->
+    a_hosts a = g1 ++ (r, rs) :: g2 ->
+    leaves rs = l1 ++ (anc, m, h) :: l2 ->
+    (forall hr lf, In hr g1 -> m_accepts rq (MHost (fst hr)) -> In lf (leaves (snd hr)) -> ~ leaf_accepts rq lf) ->
+    m_accepts rq (MHost r) ->
+    (forall lf, In lf l1 -> ~ leaf_accepts rq lf) ->
+    leaf_accepts rq (anc, m, h) ->
+    exists args, app_find a rq = RtHandler h args /\ leaf_args rq m args.
+Proof. exact host_groups_in_call_order. Qed.
+Print Assumptions C31_host_groups_are_tried_in_call_order.
+
+(* ... and the constructor's handlers (".*$" group, then the default-host groups)
+   come after every add_handlers group *)
+Theorem C31_constructor_handlers_come_after_host_groups :
+  forall a rq l1 anc m h l2,
+    valid_text (rq_path rq) ->
+    (forall hr lf, In hr (a_hosts a) -> m_accepts rq (MHost (fst hr)) -> In lf (leaves (snd hr)) -> ~ leaf_accepts rq lf) ->
+    leaves (wildcard_rules a) = l1 ++ (anc, m, h) :: l2 ->
+    (forall lf, In lf l1 -> ~ leaf_accepts rq lf) ->
+    leaf_accepts rq (anc, m, h) ->
+    exists args, app_find a rq = RtHandler h args /\ leaf_args rq m args.
+Proof. exact constructor_handlers_after_host_groups. Qed.
+Print Assumptions C31_constructor_handlers_come_after_host_groups.
